@@ -27,6 +27,14 @@ CLAIMED = {
  'C16': dict(text='PARTIAL claim: dtype flow over 8 module/input precision combinations (tags + torch kernel dtype errors modelled, compared with real torch), converted == constructed module, float32 tap quantisation bound '
                   '|T32-T64| <= 64 eps32 gain for all inputs (z3), strided/sliced/transposed symbolic views == contiguous copies.', ref='4 C16',
              note=BASE_NOTE + ' NOT decided: floating-point rounding of the arithmetic inside ATen/oneDNN kernels (accumulation order unspecified, not encodable); a cancellation-prone reformulation is invisible to this check.'),
+ 'C08': dict(text='both scattering layers run on input atoms; every sqrt is purified, so each output is a linear form or sqrt(q)+c with q an exact polynomial: lowpass channels vs the pooled reference lowpass (linear queries), '
+                  'c = -magbias exactly and q == re_ref^2+im_ref^2(+colour)+b^2 composed from dtcwt.Transform2d basis responses (polynomial tolerance queries, rounding/interval lemma + z3), second order compositionally '
+                  '(inner magnitudes matched to reference positions, outer stage vs the reference operator on those atoms); shapes/layout, edge extension, non-negativity.', ref='4 C08',
+             technique='symbolic execution with purified sqrt atoms + polynomial identity queries (exact rational interval/rounding lemma, z3 QF_NRA restricted to lines for counterexamples), replay on real torch vs the reference composition'),
+ 'C09': dict(text='the layers are run with the input requiring grad; the tape model calls the repository\'s own backward with a symbolic cotangent; oracle = symbolic derivative of the forward\'s own expression DAG (chain rule through the '
+                  'purified sqrt / reciprocal / linear-form atoms); per input element the difference polynomial in (g, x, r, 1/r, u) must vanish within tolerance with all atoms free in their boxes; every reciprocal is of a sqrt atom with '
+                  'radicand (sum of squares)+b^2 > 0 also on the zero image; replay by central differences on the real forward.', ref='4 C09',
+             technique='symbolic execution + tape model of autograd + symbolic differentiation of the forward DAG; polynomial identity queries (normal form, interval/rounding lemma, z3 on lines); finite-difference replay'),
  'C10': dict(text='inverse DWT executed on a free symbolic pyramid (not only transforms of signals); per sample z3 shows equality with the waverec basis-response form; None levels compared with zero-substitution of the full symbolic run and with the oracle.', ref='4 C10'),
  'C11': dict(text='DTCWTInverse executed on a free symbolic pyramid of reference shapes; per sample z3 shows equality with dtcwt.Transform2d.inverse; every absence mask (None / empty tensor for lowpass or any level) is compared with the reference given zeros.', ref='4 C11'),
  'C12': dict(text='get_dimensions5/6 checked for ALL integers by CrossHair (z3) against the axis specification; all 30 layouts (+negative aliases) forward == movedim(default) and inverse(layout) == default inverse on free symbolic pyramids; all skip/include masks and prefix consistency as exact identities between symbolic runs.', ref='4 C12',
@@ -53,7 +61,7 @@ for pid, c in CLAIMED.items():
         'level_note': c.get('note', BASE_NOTE),
         'technique': c.get('technique', TECH),
     })
-na = [{'property_id': p['id'], 'reason': 'check not built yet (build in progress, see DESIGN.md section 8)'} for p in props if p['id'] not in CLAIMED]
+na = [{'property_id': p['id'], 'reason': 'check not built yet'} for p in props if p['id'] not in CLAIMED]
 m = {
  'version': 1,
  'setup_cmd': './setup.sh',
